@@ -234,6 +234,13 @@ class DictWriter:
                 "type": self.write_type(instruction.ty),
                 "src": self.write_value_ref(instruction.src),
             }
+        elif isinstance(instruction, ir.CopyBlob):
+            json_instruction = {
+                "kind": "copyblob",
+                "dst": self.write_value_ref(instruction.dst),
+                "src": self.write_value_ref(instruction.src),
+                "amount": instruction.amount,
+            }
         elif isinstance(instruction, ir.Exit):
             json_instruction = {
                 "kind": "exit",
@@ -555,6 +562,11 @@ class DictReader:
                 arguments.append(self.get_value_ref(json_argument))
             instruction = ir.FunctionCall(callee, arguments, name, ty)
             self.register_value(instruction)
+        elif itype == "copyblob":
+            dst = self.get_value_ref(json_instruction["dst"])
+            src = self.get_value_ref(json_instruction["src"])
+            amount = json_instruction["amount"]
+            instruction = ir.CopyBlob(dst, src, amount)
         elif itype == "exit":
             instruction = ir.Exit()
         elif itype == "return":
